@@ -438,6 +438,9 @@ type entReq struct {
 	domain []byte
 	ent    Ent
 	dom    string
+	data   []byte // generic requests: the data field actually sent when it is not the 32-byte root (shifted boundary)
+	effDom string // class of the domain that a signature over (data||domain)[0..31], (data||domain)[32..63] would be made under
+	effD   []byte
 }
 
 func (r *Runner) entReqs(b *Base, op Op) []entReq {
@@ -473,12 +476,34 @@ func (r *Runner) entReqs(b *Base, op Op) []entReq {
 			er.dom = defaultDom(op.Kind)
 		}
 		er.domain = domainBytes(er.dom, 0x5a)
+		if strings.HasPrefix(er.dom, "shift") {
+			// "shiftK:cls": the data field is K bytes short, the domain field K bytes long; together they are the 32-byte root
+			// followed by a 32-byte domain of class cls
+			k, cls := 4, "att"
+			if j := strings.Index(er.dom, ":"); j > 5 {
+				k, _ = strconv.Atoi(er.dom[5:j])
+				cls = er.dom[j+1:]
+			}
+			root := rootBytes(e.Root)
+			d := domainBytes(cls, 0x5a)
+			er.data = append([]byte{}, root[:32-k]...)
+			er.domain = append(append([]byte{}, root[32-k:]...), d...)
+			er.effDom, er.effD = cls, d
+		}
 		out[i] = er
 	}
 	return out
 }
 
 func stateName(s pb.ResponseState) string { return s.String() }
+
+// relDom is the class of the domain a released signature was really made under.
+func relDom(er entReq) string {
+	if er.effDom != "" {
+		return er.effDom
+	}
+	return er.dom
+}
 
 // runSign executes one signing operation at handler level and emits Invoke/Respond/Release events.
 func (r *Runner) runSign(ctx context.Context, st *Stack, b *Base, op Op) {
@@ -522,7 +547,11 @@ func (r *Runner) runSign(ctx context.Context, st *Stack, b *Base, op Op) {
 		case "prop":
 			roots[i] = SigningRoot(HeaderRoot(r.cv(e.Slot), 11, rootBytes("p"+e.Root), rootBytes("q"+e.Root), rootBytes(e.Root)), er.domain)
 		default:
-			roots[i] = SigningRoot([32]byte(rootBytes(e.Root)), er.domain)
+			if er.effD != nil {
+				roots[i] = SigningRoot([32]byte(rootBytes(e.Root)), er.effD)
+			} else {
+				roots[i] = SigningRoot([32]byte(rootBytes(e.Root)), er.domain)
+			}
 		}
 	}
 	attData := func(er entReq) *pb.AttestationData {
@@ -596,6 +625,9 @@ func (r *Runner) runSign(ctx context.Context, st *Stack, b *Base, op Op) {
 	case "gen":
 		er := ers[0]
 		req := &pb.SignRequest{Domain: er.domain, Data: rootBytes(er.ent.Root)}
+		if er.data != nil {
+			req.Data = er.data
+		}
 		if er.pub != nil {
 			req.Id = &pb.SignRequest_PublicKey{PublicKey: er.pub}
 		}
@@ -615,6 +647,9 @@ func (r *Runner) runSign(ctx context.Context, st *Stack, b *Base, op Op) {
 		req := &pb.MultisignRequest{}
 		for _, er := range ers {
 			q := &pb.SignRequest{Domain: er.domain, Data: rootBytes(er.ent.Root)}
+			if er.data != nil {
+				q.Data = er.data
+			}
 			if er.pub != nil {
 				q.Id = &pb.SignRequest_PublicKey{PublicKey: er.pub}
 			}
@@ -659,7 +694,7 @@ func (r *Runner) runSign(ctx context.Context, st *Stack, b *Base, op Op) {
 		if match >= 0 {
 			e := ers[match].ent
 			rel = append(rel, Ev{"ev": "Release", "r": op.ID, "i": match, "pos": j, "k": fmt.Sprintf("k%d", e.K), "kind": relKind(op.Kind),
-				"s": e.S, "t": e.T, "slot": e.Slot, "root": e.Root, "dom": ers[match].dom})
+				"s": e.S, "t": e.T, "slot": e.Slot, "root": e.Root, "dom": relDom(ers[match])})
 		} else {
 			rel = append(rel, Ev{"ev": "BadSig", "r": op.ID, "pos": j})
 		}
